@@ -55,7 +55,13 @@ BaseTexts == <<
     <<P!It("def", P!X_Type(P!NoAttrs, "pub", "T",
         <<P!X_Vft(P!NoAttrs, <<>>),
           P!X_Field(P!NoAttrs, "pub", "a", P!X_CPtr(U("u8"))),
-          P!X_Field(AG(<<P!X_AFn("address", <<I(24)>>)>>), "pub", "c", U("u64"))>>))>>)
+          P!X_Field(AG(<<P!X_AFn("address", <<I(24)>>)>>), "pub", "c", U("u64"))>>))>>),
+  (* 5: an addressed gap that is an array of wider elements, with padding in front of it and a named field behind it *)
+  P!X_Mod(P!NoAttrs,
+    <<P!It("def", P!X_Type(AG(<<P!X_AFn("align", <<I(4)>>)>>), "pub", "T",
+        <<P!X_Field(P!NoAttrs, "pub", "a", U("u32")),
+          P!X_Field(AG(<<P!X_AFn("address", <<I(8)>>)>>), "priv", "_", P!X_Arr(U("u32"), NumInt(2))),
+          P!X_Field(P!NoAttrs, "pub", "b", U("u32"))>>))>>)
 >>
 
 Alpha == <<P!Pu("#"), P!Pu("["), P!Pu("]"), P!Pu("("), P!Pu(")"), P!Pu(","), P!Pu(":"), P!Pu("_"), P!Kw("pub"),
